@@ -204,6 +204,7 @@ def _normalisation_note(ctx: "Ctx") -> T.Dict[str, T.Any]:
             "expanded_call_sites": {m: mod.expanded_calls for m, mod in ctx.prog.modules.items() if mod.expanded_calls},
             "helpers_dropped": list(normalise.LAST_RUN.get("dropped", [])),
             "renames_undone": list(normalise.LAST_RUN.get("renames_undone", [])),
+            "const_renames_undone": list(normalise.LAST_RUN.get("const_renames_undone", [])),
             "new_constants_inlined": list(normalise.LAST_RUN.get("constants_inlined", [])),
             "local_renames_undone": list(normalise.LAST_RUN.get("local_renames_undone", [])),
             "table_dispatch_expanded": normalise.LAST_RUN.get("dispatch_expanded", 0),
